@@ -18,7 +18,9 @@
       BadMonitoredItemIdInvalid for an unknown id and BadSessionIdInvalid for an
       item of another session and go on to the next id without touching it;
     * monitored item ids come from an atomic counter that skips 0.
-  Sessions are numbers; 0 stands for "no such session" (`Session()` returns nil).
+  Sessions are numbers; 0 stands for "no such session" (`Session()` returns nil): every
+  handler answers BadSessionIdInvalid then (the nil-session branches further down are kept as
+  the code has them, they can no longer be reached).
 -/
 namespace Opcua.SrvIds
 
@@ -80,6 +82,7 @@ inductive Out where
   | errNoSub          -- "sub doesn't exist"      → ServiceFault BadUnexpectedError
   | errNotYours       -- "not your subscription"  → ServiceFault BadUnexpectedError
   | panic             -- nil dereference in the handler
+  | errNoSession      -- no session for the authentication token → ServiceFault BadSessionIdInvalid
   | applied (hit : Bool)
   | noSuchPending
   deriving Repr, DecidableEq
@@ -219,13 +222,26 @@ def deleteItems (st : St) (sess : Nat) (ids : List Nat) : Out × St :=
   let (ss, del, p) := deleteItemsLoop st.items sess ids
   (if p then .panic else .statuses ss, { st with items := st.items.filter (fun it => !del.contains it.id) })
 
-def step (st : St) : Op → Out × St
-  | .createSub s => createSub st s
-  | .deleteSubs s ids => deleteSubs st s ids
-  | .apply k => applyDelete st k
-  | .createItems s sub n => createItems st s sub n
-  | .setMode s m ids => setMode st s m ids
-  | .deleteItems s ids => deleteItems st s ids
+/-- the session that issues a request (`apply` is nobody's request) -/
+def Op.session : Op → Option Nat
+  | .createSub s => some s
+  | .deleteSubs s _ => some s
+  | .apply _ => none
+  | .createItems s _ _ => some s
+  | .setMode s _ _ => some s
+  | .deleteItems s _ => some s
+
+/-- every handler first looks the session up (`srv.Session(req.RequestHeader)`); without one the
+    request is answered with BadSessionIdInvalid and nothing happens -/
+def step (st : St) (op : Op) : Out × St :=
+  if op.session = some 0 then (.errNoSession, st)
+  else match op with
+    | .createSub s => createSub st s
+    | .deleteSubs s ids => deleteSubs st s ids
+    | .apply k => applyDelete st k
+    | .createItems s sub n => createItems st s sub n
+    | .setMode s m ids => setMode st s m ids
+    | .deleteItems s ids => deleteItems st s ids
 
 def run (st : St) : List Op → List Out × St
   | [] => ([], st)
@@ -244,14 +260,5 @@ def SubInv (st : St) : Prop :=
 /-- item ids in use are non-zero, not above the counter, and pairwise distinct -/
 def ItemInv (st : St) : Prop :=
   (∀ it ∈ st.items, 1 ≤ it.id ∧ it.id ≤ st.itemCtr) ∧ (st.items.map (·.id)).Nodup
-
-/-- the session that issues a request (`apply` is nobody's request) -/
-def Op.session : Op → Option Nat
-  | .createSub s => some s
-  | .deleteSubs s _ => some s
-  | .apply _ => none
-  | .createItems s _ _ => some s
-  | .setMode s _ _ => some s
-  | .deleteItems s _ => some s
 
 end Opcua.SrvIds
